@@ -6,15 +6,16 @@ package main
 // library's own parser/verifier.
 
 import (
-	"io"
 	"bytes"
 	"crypto"
 	"crypto/sha256"
 	"encoding/asn1"
 	"fmt"
+	"io"
 	"os"
 	"os/exec"
 	"path/filepath"
+	"time"
 
 	"github.com/foxboron/go-uefi/authenticode"
 	"github.com/foxboron/go-uefi/pkcs7"
@@ -62,6 +63,8 @@ func runP7Sign(sc M) {
 	}
 	cert := testCert(key, issuer, serial)
 	other := testCert("k3", "i2", "s2")
+	time.Local = zoneOf(str(sc, "tz")) // the process's time zone plays no part in what is produced
+	defer func() { time.Local = time.UTC }()
 	if sc["after_error"] == true {
 		// an earlier signing attempt over other content failed in the signer: the next signature must not be affected
 		dl := &depLog{faultAt: 1, kind: "error"}
@@ -177,6 +180,10 @@ func runP7Sign(sc M) {
 					m["sigKey"], m["sigOver"] = "k1", "attrs_as_encoded"
 				}
 				facts["signing_time"] = s.attr(oidSigningTime) != nil
+				if st := s.attr(oidSigningTime); st != nil {
+					// DER: a UTCTime / GeneralizedTime value is written in UTC and ends in "Z", whatever zone the process runs in
+					facts["signing_time_utc"] = len(st.Values) > 2 && st.Values[len(st.Values)-1] == 'Z'
+				}
 				facts["sig_alg_rsa"] = s.SigAlg.Equal(oidRSA) && s.DigestAlg.Equal(oidSHA256)
 			}
 			ss = append(ss, m)
